@@ -48,7 +48,7 @@ Proof.
 Qed.
 Lemma zmem_false x l : zmem x l = false <-> ~ In x l.
 Proof. rewrite <- zmem_In. destruct (zmem x l); split; congruence. Qed.
-Lemma In_zremove x y l : In x (zremove y l) <-> In x l /\ x <> y.
+Lemma In_zremove x y l : In x (zdrop y l) <-> In x l /\ x <> y.
 Proof.
   induction l as [|z l IH]; simpl; [tauto|].
   destruct (Z.eqb_spec y z) as [->|N].
@@ -57,7 +57,7 @@ Proof.
     + intros [H|[H N']]; [subst; split; [auto | congruence] | tauto].
     + tauto.
 Qed.
-Lemma NoDup_zremove y l : NoDup l -> NoDup (zremove y l).
+Lemma NoDup_zremove y l : NoDup l -> NoDup (zdrop y l).
 Proof.
   induction 1 as [|z l Hn Hd IH]; simpl; [constructor|].
   destruct (y =? z); [exact IH|]. constructor; [|exact IH].
@@ -213,10 +213,10 @@ Proof.
   - apply gwf_aset; [exact W | discriminate | constructor; [simpl; tauto | constructor]].
 Qed.
 
-Lemma g_subs_del_eq n c g : g_subs n (g_del n c g) = zremove c (g_subs n g).
+Lemma g_subs_del_eq n c g : g_subs n (g_del n c g) = zdrop c (g_subs n g).
 Proof.
   unfold g_del, g_subs. destruct (alookup n g) as [subs|] eqn:E.
-  - destruct (zremove c subs) as [|x r] eqn:Z.
+  - destruct (zdrop c subs) as [|x r] eqn:Z.
     + rewrite alookup_aremove_eq. reflexivity.
     + rewrite alookup_aset_eq. reflexivity.
   - rewrite E. reflexivity.
@@ -224,7 +224,7 @@ Qed.
 Lemma g_subs_del_neq n n' c g : n' <> n -> g_subs n' (g_del n c g) = g_subs n' g.
 Proof.
   intros N. unfold g_del, g_subs. destruct (alookup n g) as [subs|] eqn:E; [|reflexivity].
-  destruct (zremove c subs); [rewrite alookup_aremove_neq by exact N | rewrite alookup_aset_neq by exact N]; reflexivity.
+  destruct (zdrop c subs); [rewrite alookup_aremove_neq by exact N | rewrite alookup_aset_neq by exact N]; reflexivity.
 Qed.
 Lemma In_g_del n c g n' c' :
   In c' (g_subs n' (g_del n c g)) <-> In c' (g_subs n' g) /\ ~ (n' = n /\ c' = c).
@@ -237,7 +237,7 @@ Lemma gwf_del n c g : GWf g -> GWf (g_del n c g).
 Proof.
   intros W. unfold g_del. destruct (alookup n g) as [subs|] eqn:E; [|exact W].
   destruct (gwf_lookup _ _ _ W E) as [_ Hd].
-  destruct (zremove c subs) as [|x r] eqn:Z; [apply gwf_aremove; exact W|].
+  destruct (zdrop c subs) as [|x r] eqn:Z; [apply gwf_aremove; exact W|].
   apply gwf_aset; [exact W | discriminate | rewrite <- Z; apply NoDup_zremove; exact Hd].
 Qed.
 
@@ -245,7 +245,7 @@ Lemma purge_keys c g : NoDup (map fst g) -> NoDup (map fst (g_purge c g)).
 Proof.
   unfold g_purge. induction g as [|[n l] g IH]; simpl; intros H; [constructor|].
   inversion H as [|? ? Hn Hd]; subst.
-  destruct (zremove c l); simpl; [apply IH; exact Hd|].
+  destruct (zdrop c l); simpl; [apply IH; exact Hd|].
   constructor; [|apply IH; exact Hd].
   intros Hin. apply Hn. apply in_map_iff in Hin. destruct Hin as [e [E1 E2]].
   apply filter_In in E2. destruct E2 as [E2 _]. apply in_map_iff in E2. destruct E2 as [e0 [E3 E4]].
@@ -257,22 +257,22 @@ Proof.
   unfold g_purge. rewrite Forall_forall in *. intros e He.
   apply filter_In in He. destruct He as [He Hne]. apply in_map_iff in He. destruct He as [e0 [<- He0]].
   simpl in *. split.
-  - destruct (zremove c (snd e0)); [discriminate | discriminate].
+  - destruct (zdrop c (snd e0)); [discriminate | discriminate].
   - apply NoDup_zremove. apply (F _ He0).
 Qed.
-Lemma g_subs_purge c g n : NoDup (map fst g) -> g_subs n (g_purge c g) = zremove c (g_subs n g).
+Lemma g_subs_purge c g n : NoDup (map fst g) -> g_subs n (g_purge c g) = zdrop c (g_subs n g).
 Proof.
   unfold g_purge, g_subs. induction g as [|[n2 l] g IH]; simpl; intros H; [reflexivity|].
   inversion H as [|? ? Hn Hd]; subst.
   destruct (beq n n2) eqn:E.
   - apply beq_eq in E. subst n2.
-    destruct (zremove c l) as [|x r] eqn:Z; simpl.
+    destruct (zdrop c l) as [|x r] eqn:Z; simpl.
     + (* the entry disappears; no other binding of n *)
       rewrite IH by exact Hd.
       destruct (alookup n g) as [l2|] eqn:E2; [|reflexivity].
       exfalso. apply Hn. apply alookup_some_In in E2. apply in_map_iff. exists (n, l2). auto.
     + rewrite beq_refl. reflexivity.
-  - destruct (zremove c l) as [|x r] eqn:Z; simpl; [apply IH; exact Hd|].
+  - destruct (zdrop c l) as [|x r] eqn:Z; simpl; [apply IH; exact Hd|].
     rewrite E. apply IH. exact Hd.
 Qed.
 
